@@ -5,10 +5,20 @@ limits.  DESIGN.md 4.14.
 History check on one FakedWBEMConnection: a generated repository (result set
 sizes 0..25, optionally one class with 100/101/230 instances to cross
 DEFAULT_MAX_OBJECT_COUNT) and a sequence of open / pull / close / bogus-context
-/ repository-mutation / namespace-removal steps over several interleaved
-enumeration sessions.  Per session the model holds the result of the
-corresponding traditional operation made right before the Open call and the
-objects delivered so far.
+/ repository-mutation / namespace-removal / fault steps over several
+interleaved enumeration sessions.  Per session the model holds the result of
+the corresponding traditional operation made right before the Open call and
+the objects delivered so far.
+
+Fault steps are operations in the middle of the sessions that the server
+refuses (remove_namespace of a namespace that still holds objects, of a
+missing one, of the Interop namespace; add_namespace of an existing one;
+CreateInstance / DeleteInstance / ModifyInstance / CreateClass / DeleteClass /
+DeleteQualifier that fail; a Pull, CloseEnumeration or Open while the server
+has pull operations switched off) or that have nothing to do with the sessions
+(another namespace added and removed again).  None of them is eos or
+CloseEnumeration, so every open session must still be there afterwards with
+the same undelivered objects, and is pulled / drained further as usual.
 """
 
 from collections import Counter
@@ -41,7 +51,20 @@ RULE = (
     "2**32-1; right or wrong Pull kind), close (open or finished session), "
     "pull/close with a fabricated context or one of another connection, "
     "create/modify/delete of instances while sessions are open, removal of "
-    "the second namespace while a session on it is open.  At the end every "
+    "the second namespace while a session on it is open, fault = an "
+    "operation that is refused or unrelated while sessions are open "
+    "(remove_namespace of a non-empty namespace - mostly the one of an open "
+    "session -, of a missing one or of the Interop namespace that 3 of 10 "
+    "recipes have; add_namespace of an existing namespace or of a second "
+    "Interop namespace; namespace names also in upper / title case and with "
+    "leading / trailing slashes; add + remove of a fresh namespace; "
+    "CreateInstance of an existing instance, DeleteInstance / ModifyInstance "
+    "of a missing one, CreateClass of an existing class, DeleteClass of a "
+    "missing one, DeleteQualifier of a used one; Pull / CloseEnumeration / "
+    "Open with disable_pull_operations=True for that one call); after a "
+    "fault step and after a pull/close with an unknown context every open "
+    "session must still be known to the server with the same number of "
+    "undelivered objects.  At the end every "
     "open session is drained with positive counts or closed, finished "
     "contexts are re-tried, and the server's context table must be empty.  "
     "Expected objects of a session = result of the corresponding "
@@ -82,6 +105,27 @@ ASSUMPTIONS = [
     "the server's context table is read through "
     "conn._mainprovider.enumeration_contexts (its keys; the length of "
     "'data' only to name the cause when a refused pull consumed objects)",
+    "fault steps: the operations are the ones whose docstrings promise a "
+    "CIMError for the given situation (remove_namespace: 'must be empty', "
+    "CIM_ERR_NAMESPACE_NOT_EMPTY / CIM_ERR_NOT_FOUND / "
+    "CIM_ERR_INVALID_NAMESPACE; add_namespace: CIM_ERR_ALREADY_EXISTS; "
+    "disable_pull_operations: 'all pull operations requests may be "
+    "forbidden'); the status code is not asserted (only counted as a "
+    "class), and a call that is accepted instead ends the history without "
+    "a finding (class fault:not-refused) because the repository model is "
+    "void then and the refusal itself is not part of this property; a "
+    "Pull/Close that is served although pull operations are disabled is "
+    "followed like a normal one",
+    "a refused operation and the add+remove of another namespace are "
+    "neither eos nor CloseEnumeration, so they must not end or shorten an "
+    "open session; this is read from the server's context table right "
+    "after the step (to name the operation at fault; through the public "
+    "interface the same shows later as a refused pull on an open session "
+    "or eos while objects remain).  Sessions whose namespace was really "
+    "removed are exempt",
+    "namespace names are case insensitive and leading/trailing slashes "
+    "are ignored (docstrings of add_namespace/remove_namespace), so the "
+    "spelled variants name the same namespace",
     "C14_Big lives in its own namespace root/big (the mock copies the "
     "whole instance store of a namespace on every enumeration); a "
     "traditional result is reused for an identical later Open call as long "
@@ -118,6 +162,10 @@ SENSITIVITY = [
     "'PullInstancesWithPath' -> query-session:server-refuses-PullInstances-"
     "and-accepts-PullInstancesWithPath; '{0!A }' in _validate_open_params "
     "-> open:leak:ValueError@_mainprovider:_validate_open_params:...",
+    "FakedWBEMConnection.remove_namespace deleting the contexts of the "
+    "namespace before MainProvider.remove_namespace refuses the removal -> "
+    "session-disturbed-by:remove_namespace-refused:context-lost",
+    "@@MUTANTS@@",
     "NOT caught, by design: _open_response '<' instead of '<=' only delays "
     "eos to a final empty pull, which the statement allows",
 ]
@@ -127,6 +175,7 @@ NSX = 'root/extra'
 # C14_Big has its own namespace: the mock copies the whole instance store of
 # a namespace on every enumeration
 NSB = 'root/big'
+NSI = 'interop'
 NS_OF = {'C14_X': NSX, 'C14_Big': NSB}
 OPTS = Opts(host=False)
 IEC = CIM_ERR_INVALID_ENUMERATION_CONTEXT
@@ -298,6 +347,10 @@ def build_repo(init, stub_query=False):
                 CIMProperty('Dst', paths['C14_Other'][j],
                             reference_class='C14_Other'),
                 CIMProperty('Note', 'l%d-%d' % (i, j))])))
+    if init.get('interop'):
+        # an (empty) Interop namespace: it can never be removed, and with it
+        # add_namespace() first tries the namespace provider route
+        conn.add_namespace(NSI)
     if stub_query:
         install_query_stub(conn)
     return conn, paths
@@ -338,6 +391,7 @@ def g_init(draw, stub_query=False):
             'links': [(draw(S._I100), draw(S._I100))
                       for _ in range(draw(st.integers(0, 4)))],
             'drain': draw(st.integers(0, 2 ** 16)),
+            'interop': draw(S._I10) < 3,
             'stub_query': stub_query}
 
 
@@ -427,6 +481,60 @@ def g_open(draw, m):
             'u32': draw(S._I10) < 2}
 
 
+# spellings of a namespace name that the namespace methods document as
+# equivalent (case insensitive, leading/trailing slashes ignored)
+_SPELL = [lambda n: n, lambda n: n, lambda n: n, lambda n: n.upper(),
+          lambda n: '/' + n, lambda n: n + '/',
+          lambda n: '//' + n.title() + '//']
+_FAULT_KINDS = (['rmns'] * 8 + ['rmns-other'] * 2 + ['addns'] * 2 +
+                ['tmpns'] * 2 + ['inst'] * 3 + ['class'] * 2 +
+                ['disabled'] * 4)
+
+
+def g_fault(draw, m):
+    """
+    An operation in the middle of the history that is refused by the server
+    (or that has no lasting effect) and therefore must leave every open
+    enumeration session as it is.
+    """
+    kind = draw(st.sampled_from(_FAULT_KINDS))
+    step = {'op': 'fault', 'kind': kind}
+    spell = _SPELL[draw(st.integers(0, len(_SPELL) - 1))]
+    if kind == 'rmns':
+        # a namespace that still contains objects; mostly the one of an open
+        # session
+        live = [s.ns for s in m.open_sessions() if not s.orphan]
+        step['ns'] = spell(draw(st.sampled_from(
+            live + live + [NS, NSB, NSX])))
+    elif kind == 'rmns-other':
+        # not existing / the Interop namespace (if the recipe has one)
+        step['ns'] = spell(draw(st.sampled_from(
+            ['root/nope', 'interop', 'interop'])))
+    elif kind == 'addns':
+        # an existing one, or a second Interop namespace (which is added if
+        # the repository has none yet)
+        step['ns'] = spell(draw(st.sampled_from(
+            [NS, NSB, 'root/interop'] + ([] if m.nsx_removed else [NSX]))))
+    elif kind == 'tmpns':
+        step['spell'] = draw(st.integers(0, len(_SPELL) - 1))
+    elif kind == 'inst':
+        step['what'] = draw(st.sampled_from(
+            ['create-existing', 'delete-missing', 'modify-missing']))
+        step['cls'] = draw(st.sampled_from(
+            ['C14_Base', 'C14_Other', 'C14_Mid', 'C14_Big', 'C14_X']))
+        step['i'] = draw(S._I100)
+    elif kind == 'class':
+        step['what'] = draw(st.sampled_from(
+            ['create-existing', 'delete-missing', 'delete-qualifier-in-use']))
+        step['ns'] = draw(st.sampled_from([NS, NSB, NSX]))
+    else:
+        step['action'] = draw(st.sampled_from(
+            ['pull', 'pull', 'pull', 'close', 'close', 'open']))
+        step['s'] = draw(S._I100)
+        step['count'] = draw(st.sampled_from(_MOC_PULL))
+    return step
+
+
 def g_step(draw, m):
     nopen = len(m.open_sessions())
     nall = len(m.sessions)
@@ -434,17 +542,19 @@ def g_step(draw, m):
     if nall == 0 or k < (75 if nopen == 0 else 18 if nopen == 1 else 8):
         return g_open(draw, m)
     r = draw(S._I100)
-    if r < 64:
+    if r < 60:
         wrong = draw(S._I100)
         return {'op': 'pull', 's': draw(S._I100),
                 'pick': 'open' if draw(S._I10) < 9 else 'any',
                 'count': draw(st.sampled_from(_MOC_PULL)),
                 'wrong': 0 if wrong < 88 else 1 if wrong < 94 else 2,
                 'u32': draw(S._I10) < 2}
-    if r < 70:
+    if r < 65:
         return {'op': 'close', 's': draw(S._I100),
                 'pick': 'open' if draw(S._I10) < 7 else 'any'}
-    if r < 77:
+    if r < 80:
+        if r >= 71:
+            return g_fault(draw, m)
         return {'op': 'bogus',
                 'what': draw(st.sampled_from(['fabricated', 'empty',
                                               'foreign', 'foreign'])),
@@ -452,7 +562,7 @@ def g_step(draw, m):
                                                 'close'])),
                 'count': draw(st.sampled_from([0, 1, 5, 1000]))}
     nsx_session = any(s.ns == NSX for s in m.open_sessions())
-    if not m.nsx_removed and r < (90 if nsx_session else 78):
+    if not m.nsx_removed and r < (91 if nsx_session else 81):
         return {'op': 'remove_ns'}
     return {'op': 'mutate',
             'what': draw(st.sampled_from(['delete', 'delete', 'create',
@@ -508,6 +618,8 @@ class Session:
         self.zero_pulls = 0
         self.reported = set()
         self.peek_ok = True
+        self.faults = 0               # fault steps survived while open
+        self.ns_faults = 0            # ... refused removals of its namespace
 
     @property
     def ctx_id(self):
@@ -540,6 +652,8 @@ class Machine:
         self.nbig = 0
         self.new_id = 5000
         self.nsx_removed = False
+        self.interop = False
+        self.tmp_id = 0
         self.max_open = 0
         self.classes = set()
         # traditional results; cleared whenever the repository is changed
@@ -572,6 +686,7 @@ class Machine:
         self.init = init
         self.stub_query = init.get('stub_query', False)
         self.nbig = init['nbig']
+        self.interop = bool(init.get('interop'))
         self.conn, self.paths = build_repo(init, self.stub_query)
 
     @property
@@ -993,6 +1108,10 @@ class Machine:
                 self.server_contexts.pop(s.ctx_id, None)
                 return False
         s.pulls += 1
+        if s.faults:
+            self.classes.add('pull:after-fault-step')
+        if s.ns_faults:
+            self.classes.add('pull:after-refused-removal-of-its-namespace')
         return self._response(s, result, moc, 'pull')
 
     def _server_remaining(self, s):
@@ -1083,9 +1202,238 @@ class Machine:
         else:
             fn = lambda: getattr(self.conn, PULL[action])(  # noqa: E731
                 c, step['count'])
+        snap = self._snapshot()
         self._expect_refused(fn, 'unknown-context:%s:%s' %
                              (what, 'close' if action == 'close' else 'pull'))
+        self._check_undisturbed(snap, 'unknown-context-' + (
+            'close' if action == 'close' else 'pull'))
         return True
+
+    # ---- refused / effect-free operations in the middle of sessions ------
+
+    def _snapshot(self):
+        """
+        what the server holds for the open sessions (orphans excepted: the
+        server may drop them at any time)
+        """
+        return [(s, self._server_remaining(s)) for s in self.open_sessions()
+                if not s.orphan and s.ctx_id is not None]
+
+    def _check_undisturbed(self, snap, opname, skip=None):
+        """
+        The operation 'opname' was refused or is unrelated to the sessions:
+        every session of the snapshot still exists on the server and holds
+        the same number of undelivered objects.  (The public interface shows
+        the same later on - pull refused on an open session, eos while
+        objects remain - but not which operation did it.)
+        """
+        table = self.server_contexts
+        for s, left in snap:
+            if s is skip or s.state != 'open':
+                continue
+            if s.ctx_id not in table:
+                self.fail('session-disturbed-by:%s:context-lost' % opname,
+                          '%s session on %r (%d of %d delivered, %d pulls) '
+                          'was open before %s and its context %r is unknown '
+                          'to the server afterwards, without eos or '
+                          'CloseEnumeration' %
+                          (s.which, s.ns, len(s.delivered), len(s.expected),
+                           s.pulls, opname, s.ctx_id))
+                # reported; the session cannot be continued
+                s.state = 'closed'
+                continue
+            now = self._server_remaining(s)
+            if left is not None and now is not None and now != left:
+                s.reported.add('consumed')
+                self.fail('session-disturbed-by:%s:objects-consumed' % opname,
+                          '%s session on %r: the server went from %d to %d '
+                          'remaining objects during %s' %
+                          (s.which, s.ns, left, now, opname))
+
+    def _refused(self, fn, opname):
+        """
+        Run an operation that the documentation says is refused.  Returns
+        True when it was.  A call that is accepted instead is not a matter of
+        this property, but the model of the repository is void then: the
+        history ends (counted as class fault:not-refused).
+        """
+        try:
+            fn()
+        except CIMError as exc:
+            self.classes.add('fault:%s:%s' % (opname, exc.status_code_name))
+            return True
+        self.classes.add('fault:%s:accepted' % opname)
+        return False
+
+    def _do_fault(self, step):
+        kind = step['kind']
+        cls = self.classes
+        conn = self.conn
+        snap = self._snapshot()
+        skip = None
+        hit = []          # sessions the refused operation is aimed at
+        ok = True
+        if kind in ('rmns', 'rmns-other'):
+            opname = 'remove_namespace-refused'
+            nsn = step['ns'].strip('/').lower()
+            hit = [s for s, _ in snap if s.ns == nsn]
+            if hit:
+                cls.add('fault:remove_namespace-refused:namespace-of-open-'
+                        'session')
+            ok = self._refused(lambda: conn.remove_namespace(step['ns']),
+                               opname)
+            if not ok and nsn == NSX:
+                self.nsx_removed = True
+        elif kind == 'addns':
+            nsn = step['ns'].strip('/').lower()
+            if nsn == NSX and self.nsx_removed:
+                cls.add('fault:skipped')
+                return True
+            if nsn == 'root/interop' and not self.interop:
+                # (an empty namespace more; nothing refers to it)
+                opname = 'add_namespace'
+                conn.add_namespace(step['ns'])
+                self.interop = True
+                cls.add('fault:add_namespace:interop-added')
+            else:
+                opname = 'add_namespace-refused'
+                hit = [s for s, _ in snap if s.ns == nsn]
+                ok = self._refused(lambda: conn.add_namespace(step['ns']),
+                                   opname)
+        elif kind == 'tmpns':
+            # a namespace that comes and goes again (successful removal of a
+            # namespace no session is on)
+            opname = 'add+remove_namespace-of-another-namespace'
+            self.tmp_id += 1
+            name = 'root/tmp%d' % self.tmp_id
+            conn.add_namespace(name)
+            conn.remove_namespace(_SPELL[step['spell']](name))
+            cls.add('fault:' + opname)
+        elif kind == 'inst':
+            what, cn = step['what'], step['cls']
+            ns = NS_OF.get(cn, NS)
+            if ns == NSX and self.nsx_removed:
+                cls.add('fault:skipped')
+                return True
+            hit = [s for s, _ in snap if s.ns == ns]
+            key = 'K' if cn == 'C14_Other' else 'Id'
+            missing = _ipath(cn, key, 'nope' if key == 'K' else Uint32(99999),
+                             ns)
+            if what == 'create-existing':
+                opname = 'CreateInstance-refused'
+                lst = self.paths[cn]
+                if not lst:
+                    cls.add('fault:skipped')
+                    return True
+                inst = conn.GetInstance(lst[step['i'] % len(lst)].copy())
+                inst.path = None
+                ok = self._refused(
+                    lambda: conn.CreateInstance(inst, namespace=ns), opname)
+            elif what == 'delete-missing':
+                opname = 'DeleteInstance-refused'
+                ok = self._refused(lambda: conn.DeleteInstance(missing),
+                                   opname)
+            else:
+                opname = 'ModifyInstance-refused'
+                prop = {'C14_Other': 'When', 'C14_Big': 'Txt',
+                        'C14_X': 'Txt'}.get(cn, 'Name')
+                val = pywbem.CIMDateTime('20250101000000.000000+000') \
+                    if prop == 'When' else 'modified'
+                inst = CIMInstance(cn, properties=[CIMProperty(prop, val)],
+                                   path=missing)
+                ok = self._refused(lambda: conn.ModifyInstance(inst), opname)
+        elif kind == 'class':
+            what, ns = step['what'], step['ns']
+            if ns == NSX and self.nsx_removed:
+                cls.add('fault:skipped')
+                return True
+            hit = [s for s, _ in snap if s.ns == ns]
+            if what == 'create-existing':
+                opname = 'CreateClass-refused'
+                klass = _xclass() if ns == NSX else _classes()[1] \
+                    if ns == NSB else _classes()[0][3]
+                ok = self._refused(
+                    lambda: conn.CreateClass(klass, namespace=ns), opname)
+            elif what == 'delete-missing':
+                opname = 'DeleteClass-refused'
+                ok = self._refused(
+                    lambda: conn.DeleteClass('C14_Nope', namespace=ns),
+                    opname)
+            else:
+                opname = 'DeleteQualifier-refused'
+                ok = self._refused(
+                    lambda: conn.DeleteQualifier('Key', namespace=ns), opname)
+        else:
+            opname, skip, ok = self._fault_disabled(step)
+            if opname is None:
+                return True
+        if snap:
+            cls.add('fault:during-session')
+        if not ok:
+            # accepted although documented as refused: the repository model
+            # is void; be lenient with what is open and stop here
+            cls.add('fault:not-refused')
+            self.trad_cache = {}
+            for s in self.open_sessions():
+                s.orphan = True
+            return False
+        self._check_undisturbed(snap, opname, skip)
+        for s, _ in snap:
+            if s.state == 'open':
+                s.faults += 1
+                if s in hit and opname == 'remove_namespace-refused':
+                    s.ns_faults += 1
+        return True
+
+    def _fault_disabled(self, step):
+        """
+        The server stops supporting pull operations for one call
+        (FakedWBEMConnection.disable_pull_operations): the call is refused
+        and the sessions go on afterwards.  Returns (opname, session to skip
+        in the comparison, refused?).
+        """
+        action = step['action']
+        cls = self.classes
+        conn = self.conn
+        s = None
+        if action != 'open':
+            cands = self.open_sessions()
+            if not cands:
+                cls.add('fault:skipped')
+                return None, None, True
+            s = cands[step['s'] % len(cands)]
+        opname = {'pull': 'Pull', 'close': 'CloseEnumeration',
+                  'open': 'Open'}[action] + \
+            '-while-pull-operations-disabled'
+        remaining = 0 if s is None else \
+            max(0, len(s.expected) - len(s.delivered))
+        moc = self._moc(step['count'], remaining, False)
+        conn.disable_pull_operations = True
+        try:
+            if action == 'pull':
+                result = getattr(conn, PULL[s.pull_kind])(s.ctx, moc)
+            elif action == 'close':
+                result = conn.CloseEnumeration(s.ctx)
+            else:
+                result = conn.OpenEnumerateInstancePaths(
+                    'C14_Base', MaxObjectCount=1)
+        except CIMError as exc:
+            cls.add('fault:%s:%s' % (opname, exc.status_code_name))
+            return opname, None, True
+        finally:
+            conn.disable_pull_operations = False
+        # served nevertheless (the statement does not forbid that): follow
+        cls.add('fault:%s:accepted' % opname)
+        if action == 'pull':
+            s.pulls += 1
+            if moc == 0:
+                s.zero_pulls += 1
+            self._response(s, result, moc, 'pull')
+        elif action == 'close':
+            s.state = 'closed'
+        elif not result.eos:
+            conn.CloseEnumeration(result.context)
+        return opname, s, True
 
     def _touch(self, path, ns):
         p = path.copy()
@@ -1228,6 +1576,10 @@ class Machine:
             cls.add('history:repository-changed-during-session')
         if any(s.orphan for s in self.sessions):
             cls.add('history:namespace-removed-during-session')
+        if any(s.faults for s in self.sessions):
+            cls.add('history:refused-or-unrelated-operation-during-session')
+        if any(s.ns_faults for s in self.sessions):
+            cls.add('history:refused-removal-of-namespace-of-open-session')
         if any(len(s.expected) > 100 for s in self.sessions):
             cls.add('history:session-with>100-objects')
         if any(s.kind == 'query' for s in self.sessions):
